@@ -140,6 +140,8 @@ def main(argv=None):
             continue
         system = registry.get_system(sysname)
         for cfg in system.configs(prop, args.tier, seed):
+            if prop == "C19" and args.tier == "thorough":
+                cfg["twin_depth"] = 99  # queried-vs-untouched twin comparison at every state, not only near the root
             jobs.append([len(jobs), sysname, cfg, [prop], args.tier])
     if not jobs:
         print("no jobs")
